@@ -555,8 +555,33 @@ def derefL (os : LObjects) : Nat → Obj → Option Obj
     | none => none
   | _, o => some o
 
-/-- `Reader::read` -/
-def loadDoc (file : Bytes) : Outcome Loaded :=
+/-- one block of object-stream members: the container's id and its (id, object) pairs -/
+abbrev Block := ObjId × List (ObjId × Obj)
+
+/-- the final merge of `Reader::read`: members of object streams are added block by block,
+`entry(id).or_insert(..)` — never replacing an object that is already there. -/
+def mergeBlocks (os : LObjects) (blocks : List Block) : LObjects :=
+  (blocks.map (·.2)).flatten.foldl (fun (acc : LObjects) (p : ObjId × Obj) =>
+    match acc.get p.1 with | some _ => acc | none => acc ++ [(p.1, .plain p.2)]) os
+
+def insertBlockSorted (b : Block) : List Block → List Block
+  | [] => [b]
+  | b' :: rest => if idLe b.1 b'.1 then b :: b' :: rest else b' :: insertBlockSorted b rest
+
+/-- blocks in container-id order (the canonical order of hook H1), stable -/
+def sortBlocks (bs : List Block) : List Block := bs.foldr insertBlockSorted []
+
+/-- apply a merge order given as indices into the sorted blocks; unnamed blocks follow -/
+def permuteBlocks (bs : List Block) (order : List Nat) : List Block :=
+  let sorted := sortBlocks bs
+  let named := order.filterMap fun i => sorted[i]?
+  let usedIdx := order
+  let restB := (sorted.zipIdx.filter fun (_, i) => !usedIdx.contains i).map (·.1)
+  named ++ restB
+
+/-- `Reader::read`; `order = none`: blocks in the order the sequential reader appends them
+(ascending cross-reference key); `some p`: the order chosen through hook H1 -/
+def loadDocOrd (order : Option (List Nat)) (file : Bytes) : Outcome Loaded :=
   let offset := match findFrom PDF_KW (file.length + 1) file 0 with | some i => i | none => 0
   let buf := file.drop offset
   match pHeader buf with
@@ -590,7 +615,7 @@ def loadDoc (file : Bytes) : Outcome Loaded :=
           let xs' := x.sorted
           let nEntries := xs'.length
           -- read every in-use object
-          let step := fun (acc : Outcome (LObjects × List (ObjId × Obj))) (e : Nat × XEntry) =>
+          let step := fun (acc : Outcome (LObjects × List Block)) (e : Nat × XEntry) =>
             match acc with
             | .ok (os, fromStm) =>
               (match e.2 with
@@ -603,7 +628,7 @@ def loadDoc (file : Bytes) : Outcome Loaded :=
                      | .plain (.stream d c) =>
                        if Dict.getTypeIs d OBJSTM then
                          (match objStmObjects d c with
-                          | .ok objs => .ok (os.insert id lo, fromStm ++ objs)
+                          | .ok objs => .ok (os.insert id lo, fromStm ++ [(id, objs)])
                           | .err "ext" => .err "ext"
                           | .err _ => .ok (os, fromStm)       -- `ObjectStream::new(..).ok()?` drops the container too
                           | .panic s => .panic s)
@@ -616,8 +641,8 @@ def loadDoc (file : Bytes) : Outcome Loaded :=
           | .err e => .err e
           | .ok (os, fromStm) =>
             -- object-stream members never replace an object already loaded; the first one wins
-            let os1 := fromStm.foldl (fun (acc : LObjects) (p : ObjId × Obj) =>
-              match acc.get p.1 with | some _ => acc | none => acc ++ [(p.1, .plain p.2)]) os
+            let blocks := match order with | none => fromStm | some p => permuteBlocks fromStm p
+            let os1 := mergeBlocks os blocks
             -- zero-length streams: read the content through the (now known) Length
             let fin := os1.map fun (p : ObjId × LObj) =>
               match p.2 with
@@ -637,5 +662,7 @@ def loadDoc (file : Bytes) : Outcome Loaded :=
             let objects := fin.foldr (fun (p : ObjId × Obj) acc => insertSortedO p.1 p.2 acc) []
             .ok { version := version, binaryMark := mark, trailer := tr, objects := objects,
                   maxId := size - 1, xrefStart := xs }
+
+def loadDoc (file : Bytes) : Outcome Loaded := loadDocOrd none file
 
 end Lopdf
